@@ -424,6 +424,28 @@ def run_probe(label, item, version, user='alice'):
         w.close()
 
 
+def run_batch_probe(names, version):
+    """Multi-item batches: the ID placeholder set by one item and read by a later one (the
+    cross product setter x reader lives in checks/c08_batch.py). Returns [(item name, exc)]."""
+    from checks import c08_batch as B
+    W.use_rsa_pool(1)
+    w = B.store('active').clone()
+    try:
+        W.CLOCK.now = W.T0 + 50
+        W.LOGS.clear()
+        r = w.do(version, [B.ITEMS[nm][0](None) for nm in names])
+        out = []
+        for nm, it in zip(names, r.items):
+            if not it.ok() and it.reason == RR.GENERAL_FAILURE.value:
+                out.append((nm, last_exception()))
+        if not out and any('Error occurred while processing operation' in t[2] or
+                           'An unexpected error occurred' in t[2] for t in W.LOGS.texts(logging.WARNING)):
+            out.append((names[-1], last_exception()))
+        return out, tuple(it.status for it in r.items)
+    finally:
+        w.close()
+
+
 def grid(tier):
     """(target label, uid or None, kind, probes)."""
     w0, uids, kek = base()
@@ -446,6 +468,28 @@ def _worker(task):
     part = Part()
     outs = set()
     w0, uids, kek = base()
+    if kind == 'batch':
+        for names, version in arg:
+            for v in ([version] if versions == 'quick' else (
+                    [(1, 0), (1, 2), (1, 4)] if version != (2, 0) else [(2, 0)])):
+                try:
+                    gfs, sig = run_batch_probe(names, v)
+                except Exception as e:   # noqa
+                    part.violation("session-escape|batch|%s" % type(e).__name__,
+                                   "exception %s escaped the session for batch %s" % (
+                                       type(e).__name__, list(names)),
+                                   {'batch': list(names), 'version': list(v)})
+                    continue
+                part.count('batches')
+                part.count('batch_all_ok' if all(x == 0 for x in sig) and len(sig) == len(names)
+                           else 'batch_some_failed')
+                for nm, exc in gfs:
+                    part.violation("GF|batch|%s|%s" % (nm, exc),
+                                   "item %s of batch %s under KMIP %d.%d answered General Failure: %s"
+                                   % (nm, list(names), v[0], v[1], exc),
+                                   {'batch': list(names), 'version': list(v)})
+        part.sample({'batch': list(arg[-1][0])})
+        return part.as_dict()
     if kind == 'target':
         tlabel, uid, k = arg
         plist = probes(uid, kek, k)
@@ -491,6 +535,10 @@ def run(tier, seed):
     n = 8
     for i in range(n):
         tasks.append(('free', (i, n), versions_all if tier == 'thorough' else versions_q))
+    from checks import c08_batch as B
+    fam = B.placeholder_family()
+    for i in range(8):
+        tasks.append(('batch', fam[i::8], tier))
     outs = set()
     for part in pmap(_worker, tasks):
         outs.update(tuple(o) for o in part.pop('out', []))
@@ -498,12 +546,18 @@ def run(tier, seed):
     n_req = rep.counters.get('requests', 0)
     if rep.counters.get('status_ok', 0) < 500 or rep.counters.get('status_fail', 0) < 2000:
         rep.harness_error("vacuous: ok=%s fail=%s" % (rep.counters.get('status_ok'), rep.counters.get('status_fail')))
+    if rep.counters.get('batch_all_ok', 0) < len(fam) // 3:
+        rep.harness_error("vacuous: only %s of %d placeholder batches succeeded throughout" % (
+            rep.counters.get('batch_all_ok'), len(fam)))
     return rep.finish(dict(
-        evaluations=n_req, distinct_nontrivial=len(outs),
+        evaluations=n_req + rep.counters.get('batches', 0), distinct_nontrivial=len(outs),
+        placeholder_batches=rep.counters.get('batches', 0),
+        placeholder_batches_all_items_succeeded=rep.counters.get('batch_all_ok', 0),
         rule="a case is one well-formed request (accepted by the library's own codec) executed on a "
              "clone of a store holding every object kind in pre-active and active state (plus keys "
              "without mask, deactivated, compromised) and a non-existent identifier; requests = "
-             "per-operation parameter menus with one deviation from the valid request. "
+             "per-operation parameter menus with one deviation from the valid request; plus the "
+             "ID-placeholder batches (every setter x every reader, 2-3 items). "
              "distinct_nontrivial = distinct (operation, object kind, outcome class) triples",
         succeeded=rep.counters.get('status_ok', 0), failed_specifically=rep.counters.get('status_fail', 0),
         general_failures=rep.counters.get('status_GF', 0),
@@ -518,6 +572,9 @@ def run(tier, seed):
 
 
 def replay(doc):
+    if 'batch' in doc:
+        gfs, sig = run_batch_probe(tuple(doc['batch']), tuple(doc['version']))
+        return bool(gfs), "batch %s -> statuses %s, general failures %s" % (doc['batch'], sig, gfs)
     w0, uids, kek = base()
     k, _, st = doc['target'].partition('/')
     if doc['target'] == 'no-object':
